@@ -372,3 +372,494 @@ Example two_memory_models_lose_the_first :
   exists s, spec_load [(TMemoryModel, ex_inst 14 1); (TMemoryModel, ex_inst 14 2)] = LCont s
             /\ all_insts (l_module s) = [ex_inst 14 2].
 Proof. eexists. split; vm_compute; reflexivity. Qed.
+
+(** * A3: a layout-ordered instruction sequence is reproduced exactly *)
+From Coq Require Import Sorted.
+
+(** the section rank of a token, given whether a function is open *)
+Definition rank (fn : bool) (t : token) : N :=
+  match t with
+  | TModule sec => sec
+  | TMemoryModel => 3
+  | TLine | TVarUndef => if fn then 11 else 10
+  | _ => 11
+  end.
+Definition fn_after (fn : bool) (t : token) : bool :=
+  match t with TFunction => true | TFunctionEnd => false | _ => fn end.
+Definition blk_after (blk : bool) (t : token) : bool :=
+  match t with TLabel => true | TTerminator => false | _ => blk end.
+Definition lbl_after (lbl : bool) (t : token) : bool :=
+  match t with TFunction => false | TLabel => true | _ => lbl end.
+
+Fixpoint ranks (fn : bool) (ts : list token) : list N :=
+  match ts with [] => [] | t :: r => rank fn t :: ranks (fn_after fn t) r end.
+
+Fixpoint nondecreasing (l : list N) : Prop :=
+  match l with
+  | a :: ((b :: _) as r) => a <= b /\ nondecreasing r
+  | _ => True
+  end.
+
+Definition is_line (t : token) : bool := match t with TLine => true | _ => false end.
+Definition is_param (t : token) : bool := match t with TParameter => true | _ => false end.
+
+(** no TLine inside a function but outside a block *)
+Fixpoint no_stray_line (fn blk : bool) (ts : list token) : bool :=
+  match ts with
+  | [] => true
+  | t :: r => negb (is_line t && fn && negb blk) && no_stray_line (fn_after fn t) (blk_after blk t) r
+  end.
+
+(** no TParameter after a TLabel of the same function *)
+Fixpoint params_first (lbl : bool) (ts : list token) : bool :=
+  match ts with
+  | [] => true
+  | t :: r => negb (is_param t && lbl) && params_first (lbl_after lbl t) r
+  end.
+
+Definition layout_ordered (ts : list token) : Prop :=
+  nondecreasing (ranks false ts)
+  /\ no_stray_line false false ts = true
+  /\ at_most_one_mm ts
+  /\ params_first false ts = true.
+
+Lemma flat_map_nil {A B} (g : A -> list B) l : (forall x, In x l -> g x = []) -> flat_map g l = [].
+Proof.
+  induction l as [|a r IH]; intros H; cbn [flat_map]; [reflexivity|].
+  rewrite (H a (or_introl eq_refl)), IH; [reflexivity|]. intros x Hx. apply H. right. exact Hx.
+Qed.
+
+Lemma flat_map_upd_eq (g g' : N -> list inst) k xs ks :
+  StronglySorted N.lt ks -> In k ks -> g' k = g k ++ xs -> (forall j, j <> k -> g' j = g j) ->
+  (forall j, k < j -> g j = []) ->
+  flat_map g' ks = flat_map g ks ++ xs.
+Proof.
+  intros Hs Hin Hk Hj He. induction ks as [|a r IH]; [destruct Hin|].
+  inversion Hs as [|? ? Hs' Hall]; subst. cbn [flat_map].
+  destruct (N.eq_dec a k) as [->|Hne].
+  - rewrite Forall_forall in Hall.
+    assert (E : flat_map g r = []).
+    { apply flat_map_nil. intros j Hjr. apply He. apply Hall. exact Hjr. }
+    assert (E' : flat_map g' r = []).
+    { apply flat_map_nil. intros j Hjr. pose proof (Hall j Hjr) as Hlt. rewrite Hj; [apply He; exact Hlt|lia]. }
+    rewrite E, E', Hk, !app_nil_r. reflexivity.
+  - destruct Hin as [->|Hin]; [congruence|]. rewrite (Hj a Hne), <- app_assoc.
+    apply f_equal. apply IH; assumption.
+Qed.
+
+Lemma keys_sorted : StronglySorted N.lt keys.
+Proof. unfold keys. repeat (constructor; try lia). Qed.
+
+Lemma in_keys k : k <= 11 -> In k keys.
+Proof. intros H. apply memN_In. destruct_N k; try reflexivity; lia. Qed.
+
+Lemma sec_insts_gt11 m k : 11 < k -> sec_insts m k = [].
+Proof. intros H. destruct_N k; try reflexivity; lia. Qed.
+
+Lemma all_insts_upd_eq m m' k xs :
+  k <= 11 -> sec_upd m m' k xs -> (forall j, k < j -> sec_insts m j = []) ->
+  all_insts m' = all_insts m ++ xs.
+Proof.
+  intros Hk [H1 H2] He. rewrite !all_insts_keys.
+  apply flat_map_upd_eq with (k := k); auto using keys_sorted, in_keys.
+Qed.
+
+Definition is_some {A} (o : option A) : bool := match o with Some _ => true | None => false end.
+
+(** agreement between the scan flags and the loader state *)
+Definition agree (s : lstate) (fn blk lbl : bool) (r : N) : Prop :=
+  fn = is_some (l_function s) /\ blk = is_some (l_block s) /\ (fn = false -> blk = false)
+  /\ (lbl = false -> blk = false /\ forall f, l_function s = Some f -> f_blocks f = [])
+  /\ (forall k, r < k -> sec_insts (l_module s) k = [])
+  /\ (fn = true -> 11 <= r).
+
+Lemma step_identity s t i s1 fn blk lbl r :
+  agree s fn blk lbl r -> step s t i s1 ->
+  r <= rank fn t ->
+  negb (is_line t && fn && negb blk) = true ->
+  negb (is_param t && lbl) = true ->
+  (t = TMemoryModel -> m_memory_model (l_module s) = None) ->
+  agree s1 (fn_after fn t) (blk_after blk t) (lbl_after lbl t) (rank fn t)
+  /\ all_of s1 = all_of s ++ [i].
+Proof.
+  intros (Afn & Ablk & Afb & Albl & Atail & Ar) H Hr Hline Hpar Hmm.
+  destruct H as [m h fo bo t k i m' Ht Hp| m h fo bo i | m h fo b t i Ht | m h bo i | m h f i | m h f bo i | m h f i | m h f b i];
+    cbn [l_function l_block l_module is_some] in *.
+  - (* push into a global section *)
+    pose proof (push_section_spec _ _ _ _ Hp) as (Hk10 & Hk3 & Hsk & Hsj & Hfns & Hmmk).
+    assert (Hfn : fn = false /\ rank fn t = k /\ fn_after fn t = fn /\ blk_after blk t = blk /\ lbl_after lbl t = lbl).
+    { destruct Ht as [->|[(-> & -> & ->)|(-> & -> & ->)]]; cbn [rank fn_after blk_after lbl_after].
+      - destruct fn; [|tauto]. specialize (Ar eq_refl). cbn [rank] in Hr. lia.
+      - cbn [is_some] in Ablk. subst blk. destruct fn; [discriminate Hline|tauto].
+      - cbn [is_some] in Afn. subst fn. tauto. }
+    destruct Hfn as (Hfn & Hrk & -> & -> & ->). rewrite Hrk in *. clear Hrk.
+    assert (Hblk : blk = false) by auto.
+    destruct fo; [subst fn; discriminate Hfn|]. destruct bo; [subst blk; discriminate Hblk|].
+    split.
+    + repeat (split; [assumption|]). split; [|intros ->; discriminate Hfn].
+      intros j Hj. rewrite Hsj by lia. apply Atail. lia.
+    + unfold all_of, pending; cbn [l_module l_function l_block pending_fn pending_blk app].
+      rewrite !app_nil_r. apply (all_insts_upd_eq m m' k); [lia|split; assumption|].
+      intros j Hj. apply Atail. lia.
+  - (* memory model *)
+    cbn [rank fn_after blk_after lbl_after] in *.
+    assert (Hfn : fn = false) by (destruct fn; [specialize (Ar eq_refl); lia|reflexivity]).
+    assert (Hblk : blk = false) by auto.
+    destruct fo; [subst fn; discriminate Hfn|]. destruct bo; [subst blk; discriminate Hblk|].
+    specialize (Hmm eq_refl). pose proof (sec_upd_mm m i Hmm) as [Hs3 Hsj].
+    split.
+    + repeat (split; [assumption|]). split; [|intros ->; discriminate Hfn].
+      intros j Hj. rewrite Hsj by lia. apply Atail. lia.
+    + unfold all_of, pending; cbn [l_module l_function l_block pending_fn pending_blk app].
+      rewrite !app_nil_r. apply (all_insts_upd_eq m _ 3); [lia|split; assumption|].
+      intros j Hj. apply Atail. lia.
+  - (* push into the open block *)
+    assert (Hfn : fn = true) by (destruct fn; [reflexivity|specialize (Afb eq_refl); congruence]).
+    assert (Hflags : rank fn t = 11 /\ fn_after fn t = fn /\ blk_after blk t = blk /\ lbl_after lbl t = lbl).
+    { rewrite Hfn. destruct Ht as [->|[->|(-> & _)]]; cbn; tauto. }
+    destruct Hflags as (-> & -> & -> & ->). split.
+    + repeat (split; [assumption|]). split; [|intros _; lia].
+      intros j Hj. apply sec_insts_gt11. exact Hj.
+    + unfold_state. norm_app. reflexivity.
+  - (* open a function *)
+    cbn [rank fn_after blk_after lbl_after] in *.
+    assert (Hblk : blk = false) by auto. destruct bo; [subst blk; discriminate Hblk|].
+    split.
+    + split; [reflexivity|]. split; [assumption|]. split; [auto|]. split.
+      * intros _. split; [assumption|]. intros f Hf. injection Hf as <-. reflexivity.
+      * split; [|intros _; lia]. intros j Hj. apply sec_insts_gt11. exact Hj.
+    + unfold_state. norm_app. reflexivity.
+  - (* close the function *)
+    cbn [rank fn_after blk_after lbl_after] in *. split.
+    + split; [reflexivity|]. split; [assumption|]. split; [auto|]. split.
+      * intros _. split; [assumption|]. intros f0 Hf0. discriminate Hf0.
+      * split; [|intros Hx; discriminate Hx]. intros j Hj. apply sec_insts_gt11. exact Hj.
+    + unfold_state. rewrite all_insts_push_function. unfold func_insts, fn_close; cbn [f_def f_end f_params f_blocks olist].
+      norm_app. reflexivity.
+  - (* parameter *)
+    cbn [rank fn_after blk_after lbl_after is_param andb] in *.
+    assert (Hlbl : lbl = false) by (destruct lbl; [discriminate Hpar|reflexivity]).
+    destruct (Albl Hlbl) as (Hblk & Hbls). specialize (Hbls f eq_refl).
+    destruct bo; [subst blk; discriminate Hblk|].
+    split.
+    + repeat (split; [assumption|]). split.
+      * intros _. split; [assumption|]. intros f0 Hf0. injection Hf0 as <-. exact Hbls.
+      * split; [|intros _; lia]. intros j Hj. apply sec_insts_gt11. exact Hj.
+    + unfold_state. rewrite Hbls. norm_app. reflexivity.
+  - (* open a block *)
+    cbn [rank fn_after blk_after lbl_after] in *. split.
+    + split; [assumption|]. split; [reflexivity|]. split; [intros Hx; subst fn; discriminate Hx|]. split.
+      * intros Hx; discriminate Hx.
+      * split; [|intros _; lia]. intros j Hj. apply sec_insts_gt11. exact Hj.
+    + unfold_state. norm_app. reflexivity.
+  - (* close the block *)
+    cbn [rank fn_after blk_after lbl_after] in *. split.
+    + split; [assumption|]. split; [reflexivity|]. split; [auto|]. split.
+      * intros Hx. destruct (Albl Hx) as (Hy & _). subst blk. discriminate Hy.
+      * split; [|intros _; lia]. intros j Hj. apply sec_insts_gt11. exact Hj.
+    + unfold_state. norm_app. reflexivity.
+Qed.
+
+Lemma mm_count_cons t ts : mm_count (t :: ts) = ((if is_mm t then 1 else 0) + mm_count ts)%nat.
+Proof. unfold mm_count. cbn [filter]. destruct (is_mm t); reflexivity. Qed.
+
+Lemma step_mm_some s i s1 : step s TMemoryModel i s1 -> m_memory_model (l_module s1) = Some i.
+Proof.
+  intros H. inversion H as [m h fo bo t k i0 m' Ht Hp| | m h fo b t i0 Ht | | | | | ]; subst.
+  - destruct Ht as [Ht|[(Ht & _)|(Ht & _)]]; discriminate Ht.
+  - reflexivity.
+  - destruct Ht as [Ht|[Ht|(Ht & _)]]; discriminate Ht.
+Qed.
+
+Lemma feed_identity tis : forall s s' fn blk lbl r,
+  agree s fn blk lbl r -> spec_feed s tis = LCont s' ->
+  nondecreasing (r :: ranks fn (map fst tis)) ->
+  no_stray_line fn blk (map fst tis) = true ->
+  params_first lbl (map fst tis) = true ->
+  (length (olist (m_memory_model (l_module s))) + mm_count (map fst tis) <= 1)%nat ->
+  all_of s' = all_of s ++ map snd tis.
+Proof.
+  induction tis as [|[t i] rest IH]; intros s s' fn blk lbl r Hag Hfeed Hnd Hline Hpar Hmm.
+  - cbn [spec_feed] in Hfeed. injection Hfeed as <-. cbn [map]. rewrite app_nil_r. reflexivity.
+  - cbn [spec_feed] in Hfeed. destruct (spec_consume s t i) as [s1| |] eqn:E; try discriminate Hfeed.
+    apply consume_step in E.
+    cbn [map fst snd ranks no_stray_line params_first] in *.
+    change (r <= rank fn t /\ nondecreasing (rank fn t :: ranks (fn_after fn t) (map fst rest))) in Hnd.
+    destruct Hnd as (Hr & Hnd).
+    apply andb_prop in Hline as (Hl1 & Hl2). apply andb_prop in Hpar as (Hp1 & Hp2).
+    rewrite mm_count_cons in Hmm.
+    assert (Hmm0 : t = TMemoryModel -> m_memory_model (l_module s) = None).
+    { intros ->. cbn [is_mm] in Hmm. destruct (m_memory_model (l_module s)); [cbn in Hmm; lia|reflexivity]. }
+    destruct (step_identity _ _ _ _ _ _ _ _ Hag E Hr Hl1 Hp1 Hmm0) as (Hag1 & Heq).
+    rewrite (IH _ _ _ _ _ _ Hag1 Hfeed Hnd Hl2 Hp2).
+    + rewrite Heq, <- app_assoc. reflexivity.
+    + destruct (token_eqb t TMemoryModel) eqn:Et.
+      * destruct t; try discriminate Et. cbn [is_mm] in Hmm.
+        rewrite (step_mm_some _ _ _ E). cbn [olist length]. lia.
+      * rewrite (step_mm_none _ _ _ _ E); [|intros ->; discriminate Et].
+        destruct t; try discriminate Et; cbn [is_mm] in Hmm; lia.
+Qed.
+
+Lemma nondecreasing_cons0 l : nondecreasing l -> nondecreasing (0 :: l).
+Proof. intros H. destruct l as [|a l]; [exact I|]. split; [lia|exact H]. Qed.
+
+Lemma agree_init : agree linit false false false 0.
+Proof.
+  unfold agree, linit; cbn [l_function l_block l_module is_some].
+  split; [reflexivity|]. split; [reflexivity|]. split; [auto|]. split.
+  - intros _. split; [reflexivity|]. intros f Hf. discriminate Hf.
+  - split; [|intros Hx; discriminate Hx]. intros k _. destruct_N k; reflexivity.
+Qed.
+
+(** along feeding: filed ++ pending is exactly what was fed *)
+Theorem feed_layout_ordered_identity tis s :
+  spec_feed linit tis = LCont s -> layout_ordered (map fst tis) ->
+  all_insts (l_module s) ++ pending s = map snd tis.
+Proof.
+  intros H (Hnd & Hline & Hmm & Hpar).
+  apply (feed_identity tis linit s false false false 0 agree_init H (nondecreasing_cons0 _ Hnd) Hline Hpar).
+  cbn. exact Hmm.
+Qed.
+
+Theorem layout_ordered_identity tis s :
+  spec_load tis = LCont s -> layout_ordered (map fst tis) -> all_insts (l_module s) = map snd tis.
+Proof.
+  intros H Hlo. apply spec_load_feed in H. destruct H as (H & Hf & Hb).
+  pose proof (feed_layout_ordered_identity _ _ H Hlo) as P.
+  unfold pending in P. rewrite Hf, Hb in P. cbn [pending_fn pending_blk app] in P.
+  rewrite app_nil_r in P. exact P.
+Qed.
+
+(** each of the four side conditions is necessary: in every example the load
+    succeeds, the three other conditions hold, and the sequence is not
+    reproduced *)
+Example ranks_necessary :
+  let tis := [(TModule 1, ex_inst 10 1); (TModule 0, ex_inst 17 2)] in
+  exists s, spec_load tis = LCont s
+    /\ no_stray_line false false (map fst tis) = true /\ at_most_one_mm (map fst tis)
+    /\ params_first false (map fst tis) = true
+    /\ all_insts (l_module s) = [ex_inst 17 2; ex_inst 10 1] /\ all_insts (l_module s) <> map snd tis.
+Proof.
+  eexists. split; [vm_compute; reflexivity|]. split; [reflexivity|]. split; [vm_compute; lia|].
+  split; [reflexivity|]. split; [reflexivity|]. intros H. discriminate H.
+Qed.
+
+Example no_stray_line_necessary :
+  let tis := [(TFunction, ex_inst 54 1); (TLine, ex_inst 8 2); (TFunctionEnd, ex_inst 56 3)] in
+  exists s, spec_load tis = LCont s
+    /\ nondecreasing (ranks false (map fst tis)) /\ at_most_one_mm (map fst tis)
+    /\ params_first false (map fst tis) = true
+    /\ all_insts (l_module s) = [ex_inst 8 2; ex_inst 54 1; ex_inst 56 3] /\ all_insts (l_module s) <> map snd tis.
+Proof.
+  eexists. split; [vm_compute; reflexivity|]. split; [cbn; lia|]. split; [vm_compute; lia|].
+  split; [reflexivity|]. split; [reflexivity|]. intros H. discriminate H.
+Qed.
+
+Example one_memory_model_necessary :
+  let tis := [(TMemoryModel, ex_inst 14 1); (TMemoryModel, ex_inst 14 2)] in
+  exists s, spec_load tis = LCont s
+    /\ nondecreasing (ranks false (map fst tis)) /\ no_stray_line false false (map fst tis) = true
+    /\ params_first false (map fst tis) = true
+    /\ all_insts (l_module s) = [ex_inst 14 2] /\ all_insts (l_module s) <> map snd tis.
+Proof.
+  eexists. split; [vm_compute; reflexivity|]. split; [cbn; lia|]. split; [reflexivity|].
+  split; [reflexivity|]. split; [reflexivity|]. intros H. discriminate H.
+Qed.
+
+Example params_first_necessary :
+  let tis := [(TFunction, ex_inst 54 1); (TLabel, ex_inst 248 2); (TTerminator, ex_inst 253 3);
+              (TParameter, ex_inst 55 4); (TFunctionEnd, ex_inst 56 5)] in
+  exists s, spec_load tis = LCont s
+    /\ nondecreasing (ranks false (map fst tis)) /\ no_stray_line false false (map fst tis) = true
+    /\ at_most_one_mm (map fst tis)
+    /\ all_insts (l_module s) = [ex_inst 54 1; ex_inst 55 4; ex_inst 248 2; ex_inst 253 3; ex_inst 56 5]
+    /\ all_insts (l_module s) <> map snd tis.
+Proof.
+  eexists. split; [vm_compute; reflexivity|]. split; [cbn; lia|]. split; [reflexivity|].
+  split; [vm_compute; lia|]. split; [reflexivity|]. intros H. discriminate H.
+Qed.
+
+(** * A2: relative order is preserved inside every container *)
+Inductive subseq {A} : list A -> list A -> Prop :=
+| ss_nil : subseq [] []
+| ss_skip x l1 l2 : subseq l1 l2 -> subseq l1 (x :: l2)
+| ss_take x l1 l2 : subseq l1 l2 -> subseq (x :: l1) (x :: l2).
+
+Lemma subseq_nil_l {A} (l : list A) : subseq [] l.
+Proof. induction l; constructor; assumption. Qed.
+Lemma subseq_refl {A} (l : list A) : subseq l l.
+Proof. induction l; constructor; assumption. Qed.
+Lemma subseq_app {A} (a b c d : list A) : subseq a b -> subseq c d -> subseq (a ++ c) (b ++ d).
+Proof. intros H1 H2. induction H1; cbn [app]; try constructor; assumption. Qed.
+Lemma subseq_snoc_skip {A} (a F : list A) i : subseq a F -> subseq a (F ++ [i]).
+Proof. intros H. rewrite <- (app_nil_r a). apply subseq_app; [exact H|apply subseq_nil_l]. Qed.
+Lemma subseq_snoc_take {A} (a F : list A) i : subseq a F -> subseq (a ++ [i]) (F ++ [i]).
+Proof. intros H. apply subseq_app; [exact H|apply subseq_refl]. Qed.
+
+Definition good_fn (F : list inst) (f : func inst) : Prop :=
+  subseq (olist (f_def f) ++ f_params f) F /\ forall b, In b (f_blocks f) -> subseq (block_insts b) F.
+
+Definition inv2a (s : lstate) (F : list inst) : Prop :=
+  (forall k, k <= 10 -> subseq (sec_insts (l_module s) k) F)
+  /\ (forall f, In f (m_functions (l_module s)) -> good_fn F f)
+  /\ (forall f, l_function s = Some f -> good_fn F f)
+  /\ (forall b, l_block s = Some b -> subseq (block_insts b) F).
+
+Lemma good_fn_mono F f i : good_fn F f -> good_fn (F ++ [i]) f.
+Proof. intros [H1 H2]. split; [apply subseq_snoc_skip; exact H1|]. intros b Hb. apply subseq_snoc_skip. auto. Qed.
+
+Lemma inv2a_mono s F i : inv2a s F -> inv2a s (F ++ [i]).
+Proof.
+  intros (A & B & C & D). split; [|split; [|split]].
+  - intros k Hk. apply subseq_snoc_skip. auto.
+  - intros f Hf. apply good_fn_mono. auto.
+  - intros f Hf. apply good_fn_mono. auto.
+  - intros b Hb. apply subseq_snoc_skip. auto.
+Qed.
+
+Lemma sec_insts_set_mm m i j : sec_insts (set_memory_model m i) j = if N.eqb j 3 then [i] else sec_insts m j.
+Proof. destruct_N j; reflexivity. Qed.
+
+Lemma inv2a_step s t i s1 F : inv2a s F -> step s t i s1 -> inv2a s1 (F ++ [i]).
+Proof.
+  intros I0 H. pose proof (inv2a_mono s F i I0) as I1.
+  destruct I0 as (A0 & B0 & C0 & D0). destruct I1 as (A & B & C & D).
+  destruct H as [m h fo bo t k i m' Ht Hp| m h fo bo i | m h fo b t i Ht | m h bo i | m h f i | m h f bo i | m h f i | m h f b i];
+    unfold inv2a; cbn [l_function l_block l_module] in *.
+  - pose proof (push_section_spec _ _ _ _ Hp) as (Hk10 & Hk3 & Hsk & Hsj & Hfns & Hmmk).
+    split; [|split; [|split]]; try assumption.
+    + intros j Hj. destruct (N.eq_dec j k) as [->|Hne].
+      * rewrite Hsk. apply subseq_snoc_take. auto.
+      * rewrite Hsj by exact Hne. auto.
+    + rewrite Hfns. exact B.
+  - split; [|split; [|split]]; try assumption.
+    intros j Hj. rewrite sec_insts_set_mm. destruct (N.eqb j 3); [|auto].
+    apply (subseq_snoc_take [] F i). apply subseq_nil_l.
+  - split; [|split; [|split]]; try assumption.
+    intros b0 Hb0. injection Hb0 as <-. unfold block_insts, blk_push; cbn [b_label b_insts].
+    rewrite app_assoc. apply subseq_snoc_take. apply (D0 b eq_refl).
+  - split; [|split; [|split]]; try assumption.
+    intros f Hf. injection Hf as <-. split.
+    + cbn. apply (subseq_snoc_take [] F i). apply subseq_nil_l.
+    + intros b Hb. destruct Hb.
+  - destruct (C f eq_refl) as (Cf1 & Cf2).
+    split; [|split; [|split]]; try discriminate.
+    + intros j Hj. destruct (sec_upd_fn m (fn_close f i)) as (_ & Hsj). rewrite Hsj by lia. auto.
+    + intros f0 Hf0. cbn [push_function m_functions] in Hf0. apply in_app_or in Hf0.
+      destruct Hf0 as [Hf0|[<-|[]]]; [auto|]. split; assumption.
+  - destruct (C0 f eq_refl) as (Cf1 & Cf2). destruct (C f eq_refl) as (_ & Cf2').
+    split; [|split; [|split]]; try assumption.
+    intros f0 Hf0. injection Hf0 as <-. split.
+    + unfold fn_param; cbn [f_def f_params]. rewrite app_assoc. apply subseq_snoc_take. exact Cf1.
+    + exact Cf2'.
+  - split; [|split; [|split]]; try assumption.
+    intros b Hb. injection Hb as <-. cbn. apply (subseq_snoc_take [] F i). apply subseq_nil_l.
+  - destruct (C f eq_refl) as (Cf1 & Cf2).
+    split; [|split; [|split]]; try assumption; try discriminate.
+    intros f0 Hf0. injection Hf0 as <-. split; [exact Cf1|].
+    intros b0 Hb0. cbn [fn_block f_blocks] in Hb0. apply in_app_or in Hb0.
+    destruct Hb0 as [Hb0|[<-|[]]]; [auto|].
+    unfold block_insts, blk_push; cbn [b_label b_insts].
+    rewrite app_assoc. apply subseq_snoc_take. apply (D0 b eq_refl).
+Qed.
+
+Lemma inv2a_holds tis s : spec_feed linit tis = LCont s -> inv2a s (map snd tis).
+Proof.
+  apply (feed_invariant (fun s fed => inv2a s (map snd fed))).
+  - split; [|split; [|split]].
+    + intros k _. destruct_N k; apply subseq_nil_l.
+    + intros f [].
+    + intros f Hf; discriminate Hf.
+    + intros b Hb; discriminate Hb.
+  - intros s0 fed t i s1 I0 Hstep. rewrite map_app. cbn [map snd]. eapply inv2a_step; eassumption.
+Qed.
+
+(** order of functions and blocks *)
+Definition fn_defs (fs : list (func inst)) : list inst := flat_map (fun f => olist (f_def f)) fs.
+Definition blk_labels (bs : list (block inst)) : list inst := flat_map (fun b => olist (b_label b)) bs.
+Definition fn_labels (fs : list (func inst)) : list inst := flat_map (fun f => blk_labels (f_blocks f)) fs.
+(** the instructions carrying token [t0], in input order *)
+Definition insts_of (t0 : token) (tis : list (token * inst)) : list inst :=
+  map snd (filter (fun ti => token_eqb (fst ti) t0) tis).
+
+Definition open_defs (s : lstate) : list inst :=
+  fn_defs (m_functions (l_module s)) ++ match l_function s with Some f => olist (f_def f) | None => [] end.
+Definition open_labels (s : lstate) : list inst :=
+  fn_labels (m_functions (l_module s))
+  ++ match l_function s with Some f => blk_labels (f_blocks f) | None => [] end
+  ++ match l_block s with Some b => olist (b_label b) | None => [] end.
+
+Lemma inv2b_step s t i s1 :
+  step s t i s1 ->
+  open_defs s1 = open_defs s ++ (if token_eqb t TFunction then [i] else [])
+  /\ open_labels s1 = open_labels s ++ (if token_eqb t TLabel then [i] else []).
+Proof.
+  intros H.
+  destruct H as [m h fo bo t k i m' Ht Hp| m h fo bo i | m h fo b t i Ht | m h bo i | m h f i | m h f bo i | m h f i | m h f b i];
+    unfold open_defs, open_labels, fn_defs, fn_labels, blk_labels;
+    cbn [l_function l_block l_module token_eqb push_function set_memory_model m_functions
+         fn_new fn_close fn_param fn_block blk_new blk_push f_def f_blocks b_label olist].
+  - pose proof (push_section_spec _ _ _ _ Hp) as (_ & _ & _ & _ & -> & _).
+    destruct Ht as [->|[(-> & _)|(-> & _)]]; cbn [token_eqb]; rewrite !app_nil_r; split; reflexivity.
+  - rewrite !app_nil_r; split; reflexivity.
+  - destruct Ht as [->|[->|(-> & _)]]; cbn [token_eqb]; rewrite !app_nil_r; split; reflexivity.
+  - norm_app. split; reflexivity.
+  - norm_app. split; reflexivity.
+  - norm_app. split; reflexivity.
+  - norm_app. split; reflexivity.
+  - norm_app. split; reflexivity.
+Qed.
+
+Lemma insts_of_snoc t0 fed t i :
+  insts_of t0 (fed ++ [(t, i)]) = insts_of t0 fed ++ (if token_eqb t t0 then [i] else []).
+Proof.
+  unfold insts_of. rewrite filter_app, map_app. cbn [filter fst]. destruct (token_eqb t t0); reflexivity.
+Qed.
+
+Lemma inv2b_holds tis s :
+  spec_feed linit tis = LCont s ->
+  open_defs s = insts_of TFunction tis /\ open_labels s = insts_of TLabel tis.
+Proof.
+  apply (feed_invariant (fun s fed => open_defs s = insts_of TFunction fed /\ open_labels s = insts_of TLabel fed)).
+  - split; reflexivity.
+  - intros s0 fed t i s1 [I1 I2] Hstep. rewrite !insts_of_snoc, <- I1, <- I2. apply inv2b_step. exact Hstep.
+Qed.
+
+(** A2.  After a successful load, with F the input instruction sequence:
+    every global section (index 0..10, 3 being the memory model) is a
+    subsequence of F; so are every function's def ++ parameters and every
+    block's label ++ instructions; the function definitions are exactly the
+    TFunction instructions in input order, the block labels (functions in
+    order, blocks in order inside each) exactly the TLabel instructions. *)
+Theorem relative_order_preserved tis s :
+  spec_load tis = LCont s ->
+  let m := l_module s in let F := map snd tis in
+  (forall k, k <= 10 -> subseq (sec_insts m k) F)
+  /\ (forall f, In f (m_functions m) -> subseq (olist (f_def f) ++ f_params f) F)
+  /\ (forall f b, In f (m_functions m) -> In b (f_blocks f) -> subseq (block_insts b) F)
+  /\ fn_defs (m_functions m) = insts_of TFunction tis
+  /\ fn_labels (m_functions m) = insts_of TLabel tis.
+Proof.
+  intros H m F. apply spec_load_feed in H. destruct H as (H & Hf & Hb).
+  destruct (inv2a_holds _ _ H) as (A & B & _ & _). destruct (inv2b_holds _ _ H) as (D & E).
+  unfold open_defs, open_labels in D, E. rewrite Hf in D, E. rewrite Hb in E. rewrite !app_nil_r in D, E.
+  split; [exact A|]. split; [intros f Hfn; apply (B f Hfn)|]. split; [intros f b Hfn Hbn; apply (B f Hfn); exact Hbn|].
+  split; assumption.
+Qed.
+
+(** the eleven section lists spelled out *)
+Corollary sections_are_subsequences tis s :
+  spec_load tis = LCont s ->
+  let m := l_module s in let F := map snd tis in
+  subseq (m_caps m) F /\ subseq (m_exts m) F /\ subseq (m_imports m) F
+  /\ subseq (olist (m_memory_model m)) F /\ subseq (m_entry_points m) F /\ subseq (m_exec_modes m) F
+  /\ subseq (m_debug_string_source m) F /\ subseq (m_debug_names m) F
+  /\ subseq (m_debug_module_processed m) F /\ subseq (m_annotations m) F
+  /\ subseq (m_types_global_values m) F.
+Proof.
+  intros H m F. destruct (relative_order_preserved _ _ H) as (A & _). fold m F in A.
+  split; [apply (A 0); lia|]. split; [apply (A 1); lia|]. split; [apply (A 2); lia|].
+  split; [apply (A 3); lia|]. split; [apply (A 4); lia|]. split; [apply (A 5); lia|].
+  split; [apply (A 6); lia|]. split; [apply (A 7); lia|]. split; [apply (A 8); lia|].
+  split; [apply (A 9); lia|]. apply (A 10); lia.
+Qed.
